@@ -25,8 +25,10 @@ KM_PARAMS = ([[f"f_scatt{i}", "2", f"0.{i+1}", "0"] for i in (3, 0, 4, 1, 2)]
              + [["s0_prod", "2", "-1.0", "0"], ["s0_scatt", "2", "-3.92637", "0"], ["sA", "2", "1.0", "0"], ["sA_0", "2", "-0.15", "0"]])
 STRUCT_KEYS = [(0, k) for k in STRUCTS[0]] + [(2, k) for k in STRUCTS[2]] + [(1, k) for k in STRUCTS[1]] + [(3, k) for k in STRUCTS[3]] + [(4, k) for k in STRUCTS[4]]
 FLAGS = [("0", "0"), ("2", "2"), ("0", "2"), ("2", "0")]
+# flag (free 0 / fixed 2) x error (zero / non-zero) are fully crossed in the last variant
 EXTRA_PARAMS = [[], [["D0_radius", "0", "0.0037559", "0.001"]], [["D0_radius", "2", "0.0037559", "0"]],
-                [["Free_par", "0", "-1.5", "0.25"], ["Fixed::par", "2", "3", "0.5"], ["D0_radius", "2", "0.004", "0"]]]
+                [["Free_par", "0", "-1.5", "0.25"], ["Fixed::par", "2", "3", "0.5"], ["D0_radius", "2", "0.004", "0"], ["Free_zero_err", "0", "147.4", "0"]]]
+SPLINE_CONST_ORDERS = [["Min", "Max", "N"], ["N", "Min", "Max"], ["Max", "Min", "N"], ["N", "Max", "Min"]]
 
 
 def gen(c):
@@ -41,6 +43,7 @@ def gen(c):
     order = c.choose("event_order", list(range(len(EVENT_ORDERS[ev]))))
     nspline = c.choose("spline_points", [2, 4, 11])
     km_always = c.flag("kmatrix_params_even_if_unused")
+    const_order = SPLINE_CONST_ORDERS[c.choose("spline_constant_order", [0, 1, 2, 3])]
     keys = list(STRUCTS[ev])
     lines = [with_lineshapes(t0, tags)]
     for j in range(n_more):
@@ -54,8 +57,9 @@ def gen(c):
                 splines.append(v[0])
             if v[2] and v[2].startswith("kMatrix"):
                 km = True
+    cvals = {"Min": "0.18412", "Max": "1.9", "N": str(nspline)}
     for name in splines:
-        ast += [["Const", f"{name}::Spline::Min", "0.18412"], ["Const", f"{name}::Spline::Max", "1.9"], ["Const", f"{name}::Spline::N", str(nspline)]]
+        ast += [["Const", f"{name}::Spline::{k}", cvals[k]] for k in const_order]
     for j, t in enumerate(lines):
         fl = flags if j == 0 else FLAGS[(j + 1) % 4]
         ast.append(["Line", t, [fl[0], ["0.5", "1.25", "0.36"][j % 3], "0.1"], [fl[1], ["2.0", "-0.75", "3.1"][j % 3], "0.2"]])
